@@ -150,6 +150,10 @@ def make_variant(crystal, vi, rnd, nvariants):
         # partial hint: only one of the two axis points is given (the other is chosen by the library)
         k = rnd.choice([0, 0, len(pat) - 1, rnd.randrange(len(pat))])
         v["hints"] = [k, None, None] if rnd.random() < 0.5 else [None, k, None]
+    if rnd.random() < 0.4:
+        # history: the same object is searched once in another state (atoms listed in another order and moved), then
+        # brought into the state of this representation by in-place edits / rebinding / translate, and searched again
+        v["prior"] = [rnd.randrange(1 << 30), rnd.choice(["inplace", "rebind", "translate"])]
     if (vi == 2 and rnd.random() < 0.25) or vi == 5:
         v["dims"] = rnd.choice([[2, 1, 1], [1, 2, 1], [1, 1, 2]] if vi == 2 else [[2, 1, 2], [1, 3, 1], [2, 2, 1]])
         v["Q"] = None if vi == 2 else v["Q"]
@@ -242,6 +246,8 @@ def run_find(crystal, v):
             kw = {}
             if v["hints"] is not None:
                 kw = {k: x for k, x in zip(("axisp1_idx", "axisp2_idx", "opoint_idx"), v["hints"]) if x is not None}
+            if v.get("prior") is not None and v["dims"] is None:
+                _search_in_prior_state(st, pt, info, v["prior"], kw)
             ans = find_pattern_in_structure(st, pt, atol=info["atol"], return_positions_and_quats=True, **kw)
             plain = find_pattern_in_structure(st, pt, atol=info["atol"], **kw) if v["rseed"] == 0 else None
         ev["ans"] = project_answer(st, pt, info, ans, orig)
@@ -251,6 +257,41 @@ def run_find(crystal, v):
         ev["exc"] = type(e).__name__
         ev["exc_msg"] = str(e)[:200]
     return ev
+
+
+def _search_in_prior_state(st, pt, info, prior, kw):
+    """search `st` once in another state, then restore the state it was built in (what is remembered from the first search
+    must not leak into the second).  Exceptions of the first search are ignored: its state may be outside the domain."""
+    from mofun import find_pattern_in_structure
+    seed_, mode = prior
+    rg = np.random.default_rng(seed_)
+    P, T = np.array(st.positions, dtype=float).copy(), np.array(st.atom_types).copy()
+    n = len(P)
+    cell = np.array(st.cell, dtype=float)
+    if mode == "translate":
+        d = rg.uniform(-0.5, 0.5, size=3) @ cell
+        st.translate(d)
+    else:
+        p2 = rg.permutation(n)
+        moved = ((P[p2] @ np.linalg.inv(cell) + rg.uniform(0, 1, size=3)) % 1.0) @ cell
+        if mode == "inplace":
+            st.positions[:] = moved
+            st.atom_types[:] = T[p2]
+        else:
+            st.positions = moved
+            st.atom_types = T[p2].copy()
+    try:
+        find_pattern_in_structure(st, pt, atol=info["atol"], **kw)
+    except Exception:
+        pass
+    if mode == "translate":
+        st.translate(-d)
+    elif mode == "inplace":
+        st.positions[:] = P
+        st.atom_types[:] = T
+    else:
+        st.positions = P.copy()
+        st.atom_types = T.copy()
 
 
 def _exec_chunk(task):
